@@ -50,6 +50,10 @@ enum ContextN {ROOT, ARRAY, OBJECT, COMMENT1, COMMENT, LINECOMMENT, ENDCOMMENT};
 
 #define INDENT_CHAR '\t'
 
+// Maximum nesting of arrays/objects the decoder accepts. Deeper texts are rejected as invalid:
+// a Var nested N levels deep is destroyed recursively, so an unbounded N overflows the stack.
+#define XDL_MAX_DEPTH 1000
+
 Var Xdl::decode(const String& xdl)
 {
 	XdlParser parser;
@@ -421,11 +425,21 @@ void XdlParser::parse(const char* s)
 			}
 			else if (c == '[')
 			{
+				if (_lists.length() > XDL_MAX_DEPTH)
+				{
+					_state = ERR;
+					return;
+				}
 				begin_array();
 				_context << ARRAY;
 			}
 			else if(c=='{')
 			{
+				if (_lists.length() > XDL_MAX_DEPTH)
+				{
+					_state = ERR;
+					return;
+				}
 				begin_object(_buffer);
 				_state=WAIT_PROPERTY;
 				_context << OBJECT;
@@ -485,6 +499,11 @@ void XdlParser::parse(const char* s)
 		case WAIT_OBJ:
 			if (c == '{')
 			{
+				if (_lists.length() > XDL_MAX_DEPTH)
+				{
+					_state = ERR;
+					return;
+				}
 				begin_object(_buffer);
 				_state = WAIT_PROPERTY;
 				_context << OBJECT;
